@@ -8,6 +8,8 @@
    Every theorem below is for ALL n >= 1 (one-entry models: n = 1), ALL kinds, ALL input sequences that respect the
    interface protocol, an abstract message type M. *)
 From PV Require Import Base.Prelude Lib.Fifo Lib.QueueRTL Lib.QueueCL Lib.QueueProofs.
+(* generated-from-source instances proved equal to the hand model at small parameters *)
+From PV Require Import Props.C17_gen.
 Open Scope nat_scope.
 
 (* ------------------------------------------------------------------ the specification itself says what the property says *)
